@@ -337,24 +337,37 @@ theorem new_ok (P : LSP T K Vx Vr J) (o : Ops K Vx Vr J LLS) (nm : Num K) (cfg :
 
 theorem new_error (P : LSP T K Vx Vr J) (o : Ops K Vx Vr J LLS) (nm : Num K) (cfg : Config K) (t : T)
     (rep : T × Report K) (h : new P o nm cfg t = .error rep) :
-    rep.1 = t ∧ rep.2.evaluations = 1 ∧ rep.2.termination ≠ .fuelExhausted := by
+    rep.1 = t ∧ rep.2.evaluations = 1 ∧ rep.2.termination ≠ .fuelExhausted ∧
+    (∀ res, P.residuals t = some res → rep.2.objective = some (o.enormR res * o.enormR res * nm.half)) ∧
+    (rep.2.termination.wasSuccessful = true → ∃ res, P.residuals t = some res) := by
   unfold new at h
   cases hr : P.residuals t with
-  | none => simp only [hr] at h; cases h; exact ⟨rfl, rfl, by simp⟩
+  | none =>
+    simp only [hr] at h; cases h
+    refine ⟨rfl, rfl, by simp, ?_, ?_⟩
+    · intro res hres; cases hres
+    · intro hs; cases hs
   | some res =>
     simp only [hr] at h
+    have hobj : ∀ res', some res = some res' →
+        some (o.enormR res * o.enormR res * nm.half) = some (o.enormR res' * o.enormR res' * nm.half) := by
+      intro res' he; cases he; rfl
     by_cases h1 : o.lenX (P.params t) = 0
-    · simp only [h1, if_true] at h; cases h; exact ⟨rfl, rfl, by simp⟩
+    · simp only [h1, if_true] at h; cases h
+      exact ⟨rfl, rfl, by simp, hobj, fun _ => ⟨res, rfl⟩⟩
     · simp only [h1, if_false] at h
       by_cases h2 : o.lenR res = 0
-      · simp only [h2, if_true] at h; cases h; exact ⟨rfl, rfl, by simp⟩
+      · simp only [h2, if_true] at h; cases h
+        exact ⟨rfl, rfl, by simp, hobj, fun _ => ⟨res, rfl⟩⟩
       · simp only [h2, if_false] at h
         by_cases h3 : nm.isFinite (o.enormR res) = true
         · simp only [h3, Bool.not_true, Bool.false_eq_true, if_false] at h
           by_cases h4 : o.enormR res ≤ nm.minPositive
-          · simp only [h4, if_true] at h; cases h; exact ⟨rfl, rfl, by simp⟩
+          · simp only [h4, if_true] at h; cases h
+            exact ⟨rfl, rfl, by simp, hobj, fun _ => ⟨res, rfl⟩⟩
           · simp [h4] at h
-        · simp only [h3, Bool.not_false, if_true] at h; cases h; exact ⟨rfl, rfl, by simp⟩
+        · simp only [h3, Bool.not_false, if_true] at h; cases h
+          exact ⟨rfl, rfl, by simp, hobj, fun _ => ⟨res, rfl⟩⟩
 
 /-- **totality and budget of `minimize`**: the fuel never runs out, and the reported number of
 evaluations is at most `max(patience·(P+1), 2)`. -/
@@ -365,7 +378,7 @@ theorem minimize_budget (P : LSP T K Vx Vr J) (o : Ops K Vx Vr J LLS) (nm : Num 
   unfold minimize
   cases hn : new P o nm cfg t with
   | error rep =>
-    obtain ⟨_, h2, h3⟩ := new_error P o nm cfg t rep hn
+    obtain ⟨_, h2, h3, _, _⟩ := new_error P o nm cfg t rep hn
     exact ⟨h3, by rw [h2]; omega⟩
   | ok sr =>
     obtain ⟨st, r⟩ := sr
